@@ -6,6 +6,7 @@ Correspondence: harness c13_values.cc runs pool histories over every class famil
 driver pplv_c13 replays them on PPLV.Value.Spec and judges every observation exactly (K1 / K2)."""
 import collections, hashlib, json, os, re
 from . import poly_common as pc
+from . import c13_move
 
 LEVEL = "proof"
 FAMILIES = ["lin", "cpoly", "nnc", "bds", "oct", "box", "grid", "pps", "prod", "det_cpoly", "det_grid"]
@@ -116,7 +117,12 @@ def classify(hist_lines, rel_idx, verdict):
 
 def run(ctx):
     ctx.ensure_ppl()
+    if ctx.replay and json.load(open(ctx.replay)).get("move"):
+        c13_move.run(ctx, replay=json.load(open(ctx.replay)))      # a case of the moving-mechanics stage
+        return
     broken = ctx.prove(["PPLV.Props.C13"])
+    if not ctx.replay:
+        broken += c13_move.run(ctx)      # stage 2: the moving mechanics (ownership model + storage-level correspondence)
     drv = ctx.ensure_pplv("pplv_c13")
     quick = ctx.tier == "quick"
     flags = () if quick else ("-fsanitize=address,undefined", "-fno-sanitize-recover=undefined", "-fno-omit-frame-pointer")
@@ -280,7 +286,9 @@ def run(ctx):
     ctx.assumptions += [
         "the judge of `denotes the same` is exact: K1 equivB (polyhedral values), K2 equivB (grids), omega-reduced sets of polyhedra (powersets), "
         "pairs after the product's own reduction (products), token equality (syntactic objects); `all histories' of the real code is sampled",
-        "outside Determinate<PSET> the sharing mechanisms (recycling, row swapping, lazy updates of const arguments) are validated by the histories, not modelled",
+        "outside Determinate<PSET>: recycling entry points, row swapping (Swapping_Vector / Linear_System), m_swap / operator= of systems and polyhedra and the aliased "
+        "binary operations are modelled as a heap-with-ownership machine and tied at the storage level in stage 2 (coverage.c13_move); lazy updates of const arguments "
+        "and the sharing inside the other domains (BD shapes, octagons, boxes, products) are validated by the histories, not modelled",
         "the operations themselves are uninterpreted: the oracle of f(args) is the same library operation run on distinct copy-constructed copies",
         "Determinate<C_Polyhedron> / Determinate<Grid> histories run in lock step with the Lean machine PPLV.Value.Cow (the one the theorems are about): values, "
         "liveness, the partition of the handles by representation and its stability in time (address of the const pointset(), freed blocks are poisoned and never "
